@@ -194,6 +194,28 @@ def run(ctx):
                 i = stt['place']['p'][-1]['l']
                 cs = [op_const(d[3]['rv']['op']) for d in ro.defs.get(i, []) if d[0] == 'stmt' and d[3]['rv']['rv'] == 'use']
                 idx.extend(cs)
+    # `for arc in oid_parsed[k..].iter_mut() { *arc = <byte read> }`: one store per element of the tail k..N of the [u8; N] array
+    for c in ro.calls:
+        if re.search(r'IndexMut<I> for \[T; N\]>::index_mut$', c.callee) and len(c.args) == 2:
+            start = None
+            for d in ro.defs.get(op_local(c.args[1]), []):
+                if d[0] == 'stmt' and d[3]['rv']['rv'] == 'agg' and d[3]['rv'].get('adt') == 'std::ops::RangeFrom':
+                    start = op_const(d[3]['rv']['ops'][0])
+            n_arr = None
+            for o in origins(ro, c.args[0]):
+                pass
+            vis = set()
+            origins(ro, c.args[0], visited=vis)
+            for l in vis:
+                m = re.match(r'^\[u8; (\d+)\]$', ro.j['locals'][l]['ty'])
+                if m:
+                    n_arr = int(m.group(1))
+            nx = [x for x in ro.calls if x.callee.endswith("IterMut<'a, T> as std::iter::Iterator>::next") and ro.in_cycle(x.block)]
+            stores = [bi for bi in range(ro.n) if ro.in_cycle(bi) for stt in ro.blocks[bi]['stmts']
+                      if stt['s'] == 'assign' and len(stt['place']['p']) == 1 and stt['place']['p'][0]['k'] == 'deref']
+            others = [x.callee for x in ro.calls if re.search(r'::(rev|skip|take|filter|step_by|zip|chain)$', x.callee)]
+            if start is not None and n_arr is not None and len(nx) == 1 and len(stores) == 1 and not others:
+                idx.extend(range(start, n_arr))
     ctx.check(sorted(idx) == [0, 1, 2, 3, 4, 5], 'R18.3', 'oid:reader_indices', 'read_object_identifier stores each of the six arcs exactly once', ro.where(),
               'read_object_identifier stores arcs at indices %s (the writer emits arcs 0..5)' % sorted(idx))
     widx = []
